@@ -401,7 +401,10 @@ impl FseTable {
         // Use fixed TF_SHIFT constant for optimal performance, regardless of table_log
         const TF_SHIFT: u8 = 12;
         let table_size = 1usize << TF_SHIFT;  // Always use TF_SHIFT for table size
-        let total_freq: u32 = frequencies.iter().sum();
+        let total_freq: u32 = frequencies
+            .iter()
+            .try_fold(0u32, |acc, &f| acc.checked_add(f))
+            .ok_or_else(|| ZiporaError::invalid_data("Symbol frequencies overflow u32"))?;
         
         if total_freq == 0 {
             return Err(ZiporaError::invalid_data("Total frequency is zero"));
